@@ -137,6 +137,8 @@ class HistGen:
         if rng.random() < 0.12:
             pkgs = [{"cat": "pkgs", "tag": self.newtag(), "prio": 0, "key": k} for k in
                     sorted(rng.sample(range(1, 8), rng.randint(0, 3)))]
+        if pkgs is not None:
+            self.count(run, "pkgs", 1)
         self.ops.append({"op": "txn", "run": run, "prio": prio, "synth": synth, "items": items, "pkgs": pkgs})
 
     def tick(self, ah=None, ty=None):
@@ -183,7 +185,7 @@ class HistGen:
     # -- profiles
     def build(self):
         getattr(self, "p_" + self.profile)()
-        complete = [c for c in CATS if c not in self.over and c != "pkgs"]
+        complete = [c for c in CATS if c not in self.over]     # pkgs: at most one package list per run
         return {"ops": self.ops, "profile": self.profile, "complete": complete}
 
     def p_all_ok(self):
@@ -427,8 +429,9 @@ def c_step(s):
     rep = "None"
     if s.get("appreply"):
         rep = "(Some (%s, %d%%N))" % (vlib.cbool(s["appreply"]["valid"]), STATE_CODE.get(s["appreply"]["state"], 9))
-    return "(mk_ostep [%s] %s %s %s)" % ("; ".join(c_req(q) for q in s["reqs"]), rep,
-                                         vlib.cbool(s["exited"]), vlib.cbool(s["hung"]))
+    rrun = (s.get("appreply") or {}).get("run", 0)
+    return "(mk_ostep [%s] %s (%d) %s %s)" % ("; ".join(c_req(q) for q in s["reqs"]), rep, rrun,
+                                              vlib.cbool(s["exited"]), vlib.cbool(s["hung"]))
 
 
 PRELUDE = """From Coq Require Import NArith ZArith List Bool.
@@ -446,8 +449,8 @@ Definition mkouts (d : outcome) (l : list (N * cat * outcome)) : N -> cat -> out
 Definition mk_oreq (k c : N) (owner host hdr run : Z) (tags : list Z) (cap seen : Z) : oreq :=
   {| o_kind := k; o_cat := c; o_owner := owner; o_host := host; o_hdr := hdr; o_run := run;
      o_tags := sortZ tags; o_cap := cap; o_seen := seen |}.
-Definition mk_ostep (r : list oreq) (rep : option (bool * N)) (e h : bool) : ostep :=
-  {| os_reqs := r; os_reply := rep; os_exited := e; os_hung := h |}.
+Definition mk_ostep (r : list oreq) (rep : option (bool * N)) (rrun : Z) (e h : bool) : ostep :=
+  {| os_reqs := r; os_reply := rep; os_reply_run := rrun; os_exited := e; os_hung := h |}.
 Definition case := (list op * list ostep * list N)%type.
 """
 
@@ -533,6 +536,11 @@ def run_and_evaluate(binary, hists, name="proc", settle_us=2500, parallel=8, sha
     model or trips a monitor (the harness decides that a step is over by quiescence; under machine load a
     late goroutine can be attributed to the next step).  Returns (obs, res, log)."""
     obs, log = run_harness(binary, hists, settle_us=settle_us, parallel=parallel, name=name)
+    if obs is None and parallel > 1:
+        # the test binary died (e.g. a fatal runtime error in code shared by the histories running in
+        # parallel): run the histories one at a time so that a failing history can still be pinned down
+        obs, log2 = run_harness(binary, hists, settle_us=settle_us, parallel=1, name=name)
+        log = log + "\n--- sequential re-run ---\n" + log2
     if obs is None:
         return None, None, log
     res = evaluate("cases_" + name, hists, obs, shards=shards)
@@ -540,6 +548,7 @@ def run_and_evaluate(binary, hists, name="proc", settle_us=2500, parallel=8, sha
         return obs, res, log
     suspects = sorted(set([i for i, c in enumerate(res["corr"]) if c] + [v[0] for v in res["viols"]]))
     res["rerun"] = len(suspects)
+    suspects = suspects[:25]       # enough to pin a failure down; the rest keep their first verdict
     if suspects:
         sub = [hists[i] for i in suspects]
         obs2, log2 = run_harness(binary, sub, settle_us=60000, parallel=4, name=name + "_retry")
